@@ -193,6 +193,11 @@ def build_app(which, docroot):
         sess.header(res)
         return res
 
+    @app.route("/getonly", method=2)
+    def getonly(req):
+        rec(req, "getonly")
+        return "getonly-%s" % tag
+
     @app.route("/odd299")
     def odd299(req):
         return "queued", "text/plain", None, 299   # not a registered code
@@ -273,6 +278,13 @@ KINDS = {
                     digest=("00000001", "c1")),     # exact repeat
     "authnc": dict(path="/private", headers={"User-Agent": "ua"},
                    digest=("00000000", "c1")),      # lower nc, same cnonce
+    # a per-request override of the debug flag stays with its request
+    "debugenv": dict(path="/hit", query="q=1", extra={"poor_Debug": "On"}),
+    "debugenv500": dict(path="/crash", extra={"poor_Debug": "On"}),
+    "debugenvoff": dict(path="/debug-info", extra={"poor_Debug": "Off"}),
+    # HEAD on a route registered for GET only
+    "headgetonly": dict(method="HEAD", path="/getonly"),
+    "getonly": dict(path="/getonly"),
     "odd299": dict(path="/odd299"),
     "set299": dict(path="/set299"),
     "user": dict(path="/user/bob/7"),
